@@ -14,6 +14,7 @@ from vlib import build, pipeline, tlc
 
 LEVEL = "model_checking"
 SIZES = [1, 2, 8, 127, 128, 129, 255, 256, 257, 300, 384]   # around and at multiples of the 128-byte swap slice
+SORT_SHAPES = ["3way", "diff", "scaled", "two"]    # comparator shapes: the order is the same, the numbers returned are not
 BIG = ["MAX", "QOV", "WR0", "WR1", "WR3", "MAX", "QOV"]   # "beyond everything", spelt in the ways that make byte counts wrap
 
 
@@ -48,6 +49,8 @@ def al_from_tlc(s, isz):
             lines.append("SWAP %d %d %d" % (o["l"], o["a"], o["b"]))
         elif op == "SWAPC":
             lines.append("SWAPC")
+        elif op == "SORT":
+            lines.append("SORT %d %s" % (o["l"], SORT_SHAPES[n % len(SORT_SHAPES)]))
         else:
             lines.append("%s %d" % (op, o["l"]))
     lines.append("FIN")
@@ -132,7 +135,7 @@ def al_random(rng, nops):
             b = rng.choice([0, ln[l] - 1, rng.randrange(ln[l]), a])
             lines.append("SWAP %d %d %d" % (l, a, b))
         elif r < 0.78:
-            lines.append("SORT %d" % l)
+            lines.append("SORT %d %s" % (l, rng.choice(SORT_SHAPES)))
         elif r < 0.85:
             lines.append("COPY %d" % l)
             o = 3 - l
@@ -315,6 +318,10 @@ def run(ctx):
         al_execs.append(al_random(rng, rng.randint(10, 60)))
     for _ in range(n_ll):
         ll_execs.append(ll_random(rng, rng.randint(8, 60)))
+    # where the lists keep their storage is a parameter of the environment, not of the sequence: in a quarter of the
+    # executions with a dynamic list it is an arena that packs blocks back to back, and the element handed to push / set_at
+    # lies directly behind the block handed out last (arraylist_adapter.c "packed")
+    al_execs = [[ex[0] + " packed"] + ex[1:] if (" dyn " in ex[0] + " " and rng.random() < 0.25) else ex for ex in al_execs]
     ctx.extra["random_scripts"] = {"array_list": n_al, "linked_list": n_ll}
     changing = ("PUSH", "POP", "SET", "ERASE", "SWAP", "SORT", "COPY", "CLEAR", "INS", "REMOVE", "MOVE")
     for ex in al_execs + ll_execs:
@@ -332,3 +339,6 @@ def run(ctx):
     al_exe, ll_exe = prepare(ctx)
     pipeline.drive_and_validate(ctx, ll_exe, ll_execs, "LinkedList", "LinkedListTrace", "Trace.cfg", label="ll")
     ctx.extra["diagnostic_executions_with_unreleased_blocks"] = leak_diagnostic(ctx, "al")
+    # lists of their own on several threads at once (Stateless.tla, see C06) + ThreadSanitizer pass
+    from checks import stateless_common
+    stateless_common.drive(ctx, ["la", "la", "qp"], thorough, n=40 if not thorough else 1000)
